@@ -29,12 +29,13 @@ Definition cval_eqb (a b : cval) : bool :=
 
 (* what a caller can get back *)
 Inductive rres := RRow (id ix val : nat) | RNotFound | RCacheErr | ROk | RExecErr | RUnmodelled
-  | RCtxErr.   (* the caller's context error (context.Canceled) *)
+  | RCtxErr    (* the caller's context error (context.Canceled) *)
+  | RDbErr.    (* the error of the database query (other than not-found) *)
 Definition rres_eqb (a b : rres) : bool :=
   match a, b with
   | RRow a1 a2 a3, RRow b1 b2 b3 => Nat.eqb a1 b1 && Nat.eqb a2 b2 && Nat.eqb a3 b3
   | RNotFound, RNotFound | RCacheErr, RCacheErr | ROk, ROk | RExecErr, RExecErr | RUnmodelled, RUnmodelled
-  | RCtxErr, RCtxErr => true
+  | RCtxErr, RCtxErr | RDbErr, RDbErr => true
   | _, _ => false
   end.
 
